@@ -389,7 +389,7 @@ theorem parse_legacy_reg (m64 : Bool) (r : Rule) (pp : Nat) (rex : Option (BitVe
     | some b => exact absurd (h32 rfl) (by simp)
 
 /-- rule side: a legacy-space /r form, `nimm` immediate bytes, whose mandatory / operand-size prefix is `pp` (0 none, 1 66, 2 F3, 3 F2) -/
-structure LegRule (rule : Rule) (nimm pp : Nat) : Prop where
+structure LegRuleD (rule : Rule) (nimm pp d : Nat) : Prop where
   hmodes : rule.modes &&& 2 ≠ 0
   hs : rule.space = 0
   hpp8 : rule.pp &&& 8 = 0
@@ -399,13 +399,16 @@ structure LegRule (rule : Rule) (nimm pp : Nat) : Prop where
   hpplt : pp < 4
   hri : rule.ri = false
   hmk : rule.modKind = 1 ∨ rule.modKind = 2
-  hmr : rule.modr = 8
+  hmr : rule.modr = d
   hmrm : rule.modrm = 8
   himm : rule.immBytes = nimm
   hrel : rule.relBytes = 0
   hmoff : rule.moff = false
   ha67 : rule.a67 = false
   hrev : rule.immRev = false
+
+/-- rule side of a legacy `/r` form (no ModRM.reg digit) -/
+abbrev LegRule (rule : Rule) (nimm pp : Nat) : Prop := LegRuleD rule nimm pp 8
 
 /-- what the parser returned for a legacy register form -/
 structure LegParsed (rule : Rule) (p : Parsed) (mb : BitVec 8) (pp : Nat) : Prop where
